@@ -100,7 +100,7 @@ class Engine:
 
     # -- observed state ------------------------------------------------------------------------
     def cur(self, name):
-        return np.array(self.world.lw[name]._volumes, dtype=float, copy=True)
+        return np.array(self.world.lw[name].volumes, dtype=float, copy=True)
 
     # -- aiming --------------------------------------------------------------------------------
     def _class_value(self, hi):
